@@ -36,6 +36,7 @@ func stdAccounts(n int) ([]*Account, map[string]int64) {
 }
 
 func main() {
+	setupSdkConfig()
 	if len(os.Args) < 2 {
 		fmt.Fprintln(os.Stderr, "usage: saoh gen|... [flags]")
 		os.Exit(2)
@@ -80,6 +81,7 @@ func main() {
 		case "sao", "saolong":
 			accs, bal := stdAccounts(16)
 			np := DefaultNodeParams()
+			np.FishmenInfo = accs[4].Bech() + "," + accs[2].Bech()
 			c, err := NewChain(GenesisSpec{Accounts: accs, Balances: bal, NodeParams: np, ValidatorIdx: []int{0}, ValSelfBond: 1000000}, time.Unix(1700000000, 0))
 			if err != nil {
 				panic(err)
